@@ -13,6 +13,12 @@
      UpdateSignal      one event per entry whose signal id is the one updated, in table order,
                        message id = the id of the registerEvent call;
 
+   (the optional per-object features — method statistics, traces — wrap the channel a message came
+   through, bus/object.go Tracer, in a wrapper made for THAT message which hands every frame to the
+   channel it wraps: a registration made while they are on holds such a wrapper as its context and
+   is, for the table, the registration of the connection the message came from; switching them on or
+   off, or calling any other method of the generic object, changes nothing here: [SAux])
+
    and runs Property.pstep on top of it: the subscribers of the property are the entries
    registered for its uid.  The object is the harness's Bomb: property "delay" (uid 101) and
    signal "boom" (uid 100, emitted by the implementor's SignalBoom helper).
@@ -55,7 +61,10 @@ Inductive sop :=
 | SOp (o : pop)                                  (* get / set / service-side update, as in Property.v *)
 | SRegister (c : nat) (obj sig uid mid : N)      (* registerEvent(obj, sig, uid) on connection c, message id mid *)
 | SUnregister (c : nat) (obj sig uid : N)        (* unregisterEvent(obj, sig, uid) on connection c *)
-| SSignal (x : N).                               (* the implementor's SignalBoom(x) *)
+| SSignal (x : N)                                (* the implementor's SignalBoom(x) *)
+| SAux (c : nat) (action : N).                   (* connection c calls another method of the generic object: metaObject,
+                                                    properties, isStatsEnabled / enableStats / stats / clearStats,
+                                                    isTraceEnabled / enableTrace *)
 
 Record sstate := { s_val : option cval; s_regs : list reg }.
 Definition sinit : sstate := {| s_val := None; s_regs := [] |}.
@@ -86,6 +95,7 @@ Definition sstep (c : pcfg) (valid : N -> bool) (s : sstate) (o : sop) : sstate 
         end
       else (s, RFail, [])
   | SSignal x => (s, RDone, map (fun sub => (boom_uid, (sub, le 4 x))) (subs_of boom_uid (s_regs s)))
+  | SAux _ _ => (s, RDone, [])
   end.
 
 (* What a client knows from the answers alone: the registrations that were acknowledged and not
